@@ -161,7 +161,7 @@ def meets_spec(op, code, spec, roles=None):
         return (True, "") if is_empty_result(code) else (False, "expected nothing (ok - or a range error)")
     if spec.startswith("~err "):
         want = spec[5:].strip()
-        if err_detail(code) == want:
+        if err_detail(code) in want.split("|"):       # `A|B`: either kind satisfies the property
             return True, ""
         return False, f"expected an error of kind {want}"
     if spec.startswith("~files"):
